@@ -57,6 +57,16 @@ impl EncoderState {
         }
     }
 
+    /// Verification hook: `(max_chunk_size, current_chunk_size, maybe_mid_stuff)`.
+    #[cfg(woodpile_verif)]
+    pub fn verif_state(&self) -> (usize, usize, bool) {
+        (
+            self.max_chunk_size.get(),
+            self.current_chunk_size,
+            self.maybe_mid_stuff,
+        )
+    }
+
     pub fn encode_borrow<'slices>(
         mut self,
         iovec: &mut OwningIovec<'slices>,
